@@ -8,7 +8,8 @@
 //             conns=<plan,plan,...> ctl=<k:action,...>
 //          plan   = ok | df (dial fails) | w<bytes> (write error once <bytes> bytes were accepted) | st (peer stops
 //                   reading after the node information until "gate") | st+w<bytes>
-//          action = gate (peer reads again) | peer (peer closes the connection); fired by emitter 0 after its k-th attempt
+//          action = stall (peer stops reading) | gate (peer reads again) | peer (peer closes the connection);
+//                   fired by emitter 0 after its k-th attempt
 // output:  <verdict> <counts> ; W <wire tokens> ; R <emit tokens>
 //          verdict = ok | hang | blocked (an Emit call took longer than emitBound, or emitters made no progress while
 //                    the writer was stalled)
@@ -70,32 +71,42 @@ type fakeConn struct {
 	closeOnce sync.Once
 	peerCh    chan struct{}
 	peerOnce  sync.Once
-	gate      chan struct{} // nil = never stalls; closed = open
-	gateOnce  sync.Once
-	stalled   atomic.Int32 // Writes that had to wait at the gate
+	gate      chan struct{} // guarded by mu; nil = peer is reading; non-nil = peer stalled until closed
+	stalled   atomic.Int32  // Writes that had to wait at the gate
 }
 
 func (c *fakeConn) openGate() {
+	c.mu.Lock()
 	if c.gate != nil {
-		c.gateOnce.Do(func() { close(c.gate) })
+		close(c.gate)
+		c.gate = nil
 	}
+	c.mu.Unlock()
+}
+
+// stall makes the peer stop reading (again): the next Write after the node information blocks.
+func (c *fakeConn) stall() {
+	c.mu.Lock()
+	if c.gate == nil {
+		c.gate = make(chan struct{})
+	}
+	c.mu.Unlock()
 }
 func (c *fakeConn) peerClose() { c.peerOnce.Do(func() { close(c.peerCh) }) }
 
 func (c *fakeConn) Write(b []byte) (int, error) {
 	c.mu.Lock()
-	needGate := c.gate != nil && len(c.buf) >= c.nodeLen
+	g := c.gate
+	if len(c.buf) < c.nodeLen {
+		g = nil
+	}
 	c.mu.Unlock()
-	if needGate {
+	if g != nil {
+		c.stalled.Add(1)
 		select {
-		case <-c.gate:
-		default:
-			c.stalled.Add(1)
-			select {
-			case <-c.gate:
-			case <-c.closeCh:
-			case <-c.peerCh:
-			}
+		case <-g:
+		case <-c.closeCh:
+		case <-c.peerCh:
 		}
 	}
 	c.mu.Lock()
@@ -402,6 +413,10 @@ func runScenario(sc scenario) string {
 							if c := current(); c != nil {
 								c.openGate()
 							}
+						case "stall":
+							if c := current(); c != nil {
+								c.stall()
+							}
 						case "peer":
 							if c := current(); c != nil {
 								c.peerClose()
@@ -623,9 +638,13 @@ func gen(rng *h.Rng, tier string, emit func(string)) {
 		na := rng.Intn(4) + stalls
 		for a := 0; a < na; a++ {
 			at := rng.Intn(A)
-			if rng.Intn(3) == 0 {
+			if k := rng.Intn(6); k < 2 {
 				ctl = append(ctl, fmt.Sprintf("%d:peer", at))
 				st.Inc("ctl-peerclose")
+			} else if k < 4 {
+				ctl = append(ctl, fmt.Sprintf("%d:stall", at))
+				st.Inc("ctl-stall")
+				na++ // and one more action, most likely the matching gate
 			} else {
 				ctl = append(ctl, fmt.Sprintf("%d:gate", at))
 				st.Inc("ctl-gate")
